@@ -199,7 +199,7 @@ def check(res, results):
         if any(e.startswith("X") for e in (summ["errors"] or [])):
             bad.append(f"frame_errors holds something that is not a set-up frame type: {summ['errors']}")
         if summ["extra"]:
-            bad.append(f"unexpected frames on the write queue: {summ['extra'][:3]}")
+            bad.append(f"unexpected frames on the write queue / event loop: {summ['extra'][:3]}")
         if summ["task_exc"]:
             bad.append(f"async_setup raised {summ['task_exc']}")
         if summ["loaded_at"] is not None and not summ["task_done"]:
